@@ -37,6 +37,24 @@ theorem C16_threshold_functor (s d : Ch) (k : Kind) (px t mx r : Int)
       bin_reg_u8_i16, bin_inv_u8_i16, trunc_thr_reg_u8_i16, trunc_thr_inv_u8_i16, trunc_zero_reg_u8_i16, trunc_zero_inv_u8_i16] at * <;>
     (split_ifs <;> omega)
 
+/-- `threshold_adaptive`: both instantiated comparison functors (generated) are exactly the documented comparison of the pixel
+    against (local threshold − constant), the subtraction taken in `int` (no wrap-around for constant > threshold) -/
+theorem C16_adaptive_functor (c : Ch) (inv : Bool) (px t mx cst r : Int)
+    (hp : c.lo ≤ px ∧ px ≤ c.hi) (ht : c.lo ≤ t ∧ t ≤ c.hi) (hm : c.lo ≤ mx ∧ mx ≤ c.hi) (hc : c.lo ≤ cst ∧ cst ≤ c.hi)
+    (hf : adaptiveFunctor c inv px t mx cst = some r) : r = adaptiveSpec inv px t mx cst := by
+  cases c <;> simp only [adaptiveFunctor, reduceCtorEq] at hf <;> cases inv <;>
+    simp only [Option.some.injEq, Bool.false_eq_true, if_false, if_true] at hf <;> subst hf <;>
+    simp only [adaptiveSpec, Ch.lo, Ch.hi, adapt_reg_u8_u8, adapt_inv_u8_u8, adapt_reg_u16_u16, adapt_inv_u16_u16,
+      Bool.false_eq_true, if_false, if_true] at * <;>
+    (split_ifs <;> omega)
+
+/-- a constant larger than the local threshold makes (threshold − constant) negative: every pixel is then "above" (no unsigned wrap) -/
+example : adaptiveFunctor .u8 false 0 3 255 10 = some 255 ∧ adaptiveSpec false 0 3 255 10 = 255 := by decide
+
+/-- the box-mean Spec of the local threshold surface accepts the exact mean and the doubly truncated one, nothing above the mean -/
+example : meanSurfaceOk 3 [9, 9, 9, 9, 9, 9, 9, 9, 9] 9 = true ∧ meanSurfaceOk 3 [9, 9, 9, 9, 9, 9, 9, 9, 9] 7 = true
+    ∧ meanSurfaceOk 3 [9, 9, 9, 9, 9, 9, 9, 9, 9] 10 = false ∧ meanSurfaceOk 3 [9, 9, 9, 9, 9, 9, 9, 9, 9] 6 = false := by decide
+
 /-! ### Otsu -/
 
 /-- the histogram index computed from the scanned min/max lies in [0,255] (generated expression) -/
